@@ -448,11 +448,13 @@ fn cmd_hist(prop: &str) -> i32 {
             let thorough = vcommon::tier() == vcommon::Tier::Thorough;
             run_sharded(&mut rec, 12, n, shards(), "hist", optv, Duration::from_secs(600), move || {
                 use proptest::prelude::*;
-                (hist::strategy_all(3, 8, false, false, 0.0, 0.25), if thorough { 1u32..=4000 } else { 1u32..=120 }, any::<bool>(), prop::collection::vec(prop_oneof![4 => Just(0u8), 1 => 1u8..=3], 3)).prop_map(|(mut c, r, many, races)| {
+                (hist::strategy_all(3, 8, false, false, 0.0, 0.25), if thorough { 1u32..=4000 } else { 1u32..=120 }, any::<bool>(), prop::collection::vec((prop_oneof![4 => Just(0u8), 1 => 1u8..=3], prop_oneof![4 => Just(0u8), 1 => 1u8..=6]), 3)).prop_map(|(mut c, r, many, faults)| {
                     c.repeat = if many { r } else { 1 + r % 4 };
-                    // (one lifetime in five: somebody else maps a hinted page first)
-                    for (l, k) in c.lifetimes.iter_mut().zip(races) {
-                        l.race_map = k;
+                    // (one lifetime in five: somebody else maps a hinted page first; one in five:
+                    // one of its mmap calls fails)
+                    for (l, (race, fail)) in c.lifetimes.iter_mut().zip(faults) {
+                        l.race_map = race;
+                        l.mmap_fail = if race == 0 { fail } else { 0 };
                     }
                     c
                 })
